@@ -13,6 +13,9 @@ CHECKS = {
  "C02": dict(cat="model_checking", tech="TLA+ stack-machine specification over Chess.tla states + TLC trace validation; sanitizer build observes the UB clause",
    text="spec/Tr_Position.tla is a stack machine (Mv/Unmv/NullOn/NullOff/Copy/Fen/Ser) over rule-book positions; TLC validates traces of the real Position in which every step logs all fields and derived attributes (hash, pawn hash, material id, material sums, piece sets, king squares) and checks them against the spec state resp. from-scratch definitions, plus functional consistency of hash keys over equal positions. The same history generator is run in an ASan+UBSan build for the undefined-behaviour clause.",
    note="Trusted: TLC, Chess.tla/Tr_Position.tla, harness/h_position.cpp, clang sanitizers as observers. Known finding: pseudo en-passant square (known_findings.json)."),
+ "C15": dict(cat="model_checking", tech="TLA+ predecessor relation over Chess.tla (RevMove.tla) + TLC trace validation",
+   text="spec/RevMove.tla defines the predecessor relation and the un-move that must restore P from Q=Play(P,m). TLC checks on implementation traces: completeness (for every legal move of sampled positions the un-move list of Q contains m with exactly P's captured piece, castle mask and ep state, in both includeAllEpSquares modes) and consistency (every sampled listed un-move, restored by the real unMakeMove, yields a position where the move is legal and leads back to Q).",
+   note="Trusted: TLC, Chess.tla/RevMove.tla, harness/h_revmove.cpp. Completeness is over sampled (P,m) pairs."),
 }
 
 NOT_APPLICABLE = {
